@@ -25,7 +25,7 @@ import (
 const c06Rule = "five entry points (container file -> ReadFile, record body -> Codec.Read and Codec.Skip, schema JSON -> SchemaFromString, decoder construction -> Schema.Codec of parsed schemas against catalogue targets and of arbitrary generated schemas against arbitrary generated Go types followed by a decode, timestamp text); " +
 	"inputs: structure-aware mutations of valid encodings (every length / count / block size / union selector / metadata length / file block count / file block length token located by the reference decoder's spans is replaced by one of " +
 	"-1, MinInt64, 0, 1, v+1, 2^31, 2^32, 2^62-1, MaxInt64, an 11-byte varint, a truncated varint; count and block size of a size-prefixed block set together to one large value), truncation at a drawn byte, single-bit flips, header variants (no codec, unknown codec, snappy block < 4 bytes), random bytes; " +
-	"evaluated in a worker subprocess (6 GiB address space): verdict = value or error, no panic, no process death, answer within 20 s, growth of the heap footprint (MemStats.HeapSys) <= 32 MiB + 4096 x len(input); " +
+	"evaluated in a worker subprocess (6 GiB address space): verdict = value or error, no panic, no process death, answer within 20 s, growth of the heap footprint (MemStats.HeapSys) <= 32 MiB + 4096 x len(input) + 64 x (bytes the file's blocks expand to); " +
 	"arrays whose items encode to zero bytes and zero-width top-level records are excluded (legal unbounded amplification); " +
 	"non-trivial = the input differs from a valid encoding in exactly one token, or is a strict prefix of one; distinct by (entry point, input bytes)"
 
@@ -285,6 +285,16 @@ func c06Verdict(w *iso.Worker, c c06Case) error {
 		return fmt.Errorf("%s", resp.Err)
 	}
 	limit := int64(32<<20) + 4096*int64(len(c.Data))
+	if c.Entry == "file" && c.Big == nil {
+		// a compressed block has to be expanded before it can be decoded, and one wire
+		// byte can stand for a 24-byte value (a date read into a time.Time): what the
+		// blocks expand to counts as input as well
+		if lay, _ := ref.ParseFile(c.Data); len(lay.Blocks) > 0 {
+			for _, bl := range lay.Blocks {
+				limit += 64 * int64(len(bl.Decompressed))
+			}
+		}
+	}
 	if c.Big != nil {
 		// incompressible content of known size: a handful of copies of the input is all a reader needs
 		limit = int64(64<<20) + 16*int64(c.Big.Pad) + 256*int64(c.Big.Items)
